@@ -270,7 +270,10 @@ pub fn check_beam(
 ) -> Vec<(u32, Fail)> {
     let mut fails: Vec<(u32, Fail)> = Vec::new();
     let positive = m.positive();
-    // Input class named in every beam signature (see Reference::spare_slots).
+    // Input class named in the signature of the exactness clause (see Reference::spare_slots).
+    // It is exact there: with beam_size >= D(T) nothing is pruned, so the number of candidates
+    // of positive mass at step t is N(t). (For pruned beams it would only be a heuristic, which
+    // is why the other clauses do not carry it.)
     let class = if r.spare_slots(width) {
         "spare beam slots: beam_size > #positive-mass prefixes at a step >= 2"
     } else {
@@ -292,7 +295,7 @@ pub fn check_beam(
             fails.push((
                 n_best,
                 (
-                    format!("ctc.{site}: duplicate label sequences in result [{class}]"),
+                    format!("ctc.{site}: duplicate label sequences in result"),
                     format!("label sequence {:?} returned more than once; result {}", d, fmt_hyps(hyps)),
                 ),
             ));
@@ -306,7 +309,7 @@ pub fn check_beam(
                 fails.push((
                     n_best,
                     (
-                        format!("ctc.{site}: non-finite score on a strictly positive matrix [{class}]"),
+                        format!("ctc.{site}: non-finite score on a strictly positive matrix"),
                         format!("labels {:?} score {}; result {}", h.labels, h.score, fmt_hyps(hyps)),
                     ),
                 ));
@@ -317,7 +320,7 @@ pub fn check_beam(
                 fails.push((
                     n_best,
                     (
-                        format!("ctc.{site}: score exceeds the exact log-probability of its label sequence [{class}]"),
+                        format!("ctc.{site}: score exceeds the exact log-probability of its label sequence"),
                         format!("labels {:?} score {} exact {}", h.labels, h.score, exact),
                     ),
                 ));
@@ -456,28 +459,31 @@ fn boxes(ctx: &Ctx) -> Vec<SubBox> {
         widths.extend([24, 32, 64]);
         let mut nb: Vec<u32> = (1..=12).collect();
         nb.extend([16, 20, 33, 100]);
-        // T <= 3: every denominator 1..=6, L <= 4
+        let nb_small = vec![1u32, 2, 3, 5, 8, 13, 21, 100];
+        // T <= 3: every denominator 1..=6, L <= 4 (the two largest with a reduced n-best axis;
+        // T=3,L=4,den=6 (592 704 matrices) is left out for time)
         for t in 1..=3 {
             for l in 2..=4 {
                 for den in 1u32..=6 {
-                    v.push(SubBox { t, l, den, widths: widths.clone(), n_bests: nb.clone() });
+                    if (t, l, den) == (3, 4, 6) {
+                        continue;
+                    }
+                    let n_bests = if (t, l) == (3, 4) && den >= 4 { nb_small.clone() } else { nb.clone() };
+                    v.push(SubBox { t, l, den, widths: widths.clone(), n_bests });
                 }
             }
         }
-        // T = 4 and longer sequences with a reduced n-best axis
-        let nb_small = vec![1u32, 2, 3, 5, 8, 13, 21, 100];
+        // longer sequences with a reduced n-best axis
         for (t, l, den) in [
             (4usize, 2usize, 4u32),
             (4, 2, 6),
+            (4, 3, 3),
             (4, 3, 4),
-            (4, 3, 5),
-            (4, 3, 6),
+            (4, 4, 2),
             (4, 4, 3),
-            (4, 4, 4),
             (5, 2, 4),
             (5, 3, 2),
             (5, 3, 3),
-            (5, 3, 4),
             (6, 2, 3),
             (6, 3, 2),
             (7, 2, 2),
@@ -548,8 +554,8 @@ pub fn explore_box(dec: &dyn Decoder, sb: &SubBox, sample_cap: usize) -> Local {
             }
             let n_pos_seqs = r.seq_prob.values().filter(|&&p| p > 0.0).count();
             if n_pos_seqs >= 2 {
-                loc.nontrivial
-                    .insert(hash_bytes(format!("{}/{}/{}/{:?}", m.t, m.l, m.den, m.num).as_bytes()));
+                let bits: Vec<u32> = m.logp.iter().map(|x| x.to_bits()).collect();
+                loc.nontrivial.insert(hash_bytes(format!("{}/{}/{:?}", m.t, m.l, bits).as_bytes()));
             }
             // greedy
             loc.add("greedy_calls", 1);
@@ -657,6 +663,7 @@ pub fn run(ctx: Ctx) -> ! {
     let samples = std::mem::take(&mut all.samples);
     let n_sigs = all.viol.len();
     let n_viol: u64 = all.viol.values().map(|v| v.2).sum();
+    let by_sig: Vec<Json> = all.viol.iter().map(|(s, v)| json!({"signature": s, "violating_cases": v.2})).collect();
     all.flush(&ctx);
     println!(
         "C39 summary: {} sub-boxes, {} matrices, {} decoder calls, {} distinct outcomes, {} violating cases in {} signature(s)",
@@ -678,6 +685,7 @@ pub fn run(ctx: Ctx) -> ! {
             "sub_boxes": axes,
             "counts": counts,
             "distinct_outcomes": distinct_outcomes,
+            "violating_cases_by_signature_exact": by_sig,
             "tolerance_log_domain": TOL,
             "oracle": "brute force over all L^T alignments in f64 on the f32 log-probabilities handed to the decoder",
         }),
